@@ -299,6 +299,23 @@ class Arr:
     def dot(self, o):
         return NP.dot(None, self, o)
 
+    def __matmul__(self, o):
+        return NP.dot(None, self, o)
+
+    def __rmatmul__(self, o):
+        return NP.dot(None, o, self)
+
+    def copy(self):
+        return Arr([list(r) for r in self.d] if self.is2d() else list(self.d))
+
+    def flatten(self):
+        return Arr([x for r in self.d for x in r] if self.is2d() else list(self.d))
+
+    ravel = flatten
+
+    def tolist(self):
+        return [list(r) for r in self.d] if self.is2d() else list(self.d)
+
 
 def _chk_full(s):
     if not (s.start is None and s.stop is None and s.step is None):
@@ -380,6 +397,20 @@ class OArr:
 
     def dot(self, o):
         return NP.dot(None, self, o)
+
+    def __matmul__(self, o):
+        return NP.dot(None, self, o)
+
+    def __rmatmul__(self, o):
+        return NP.dot(None, o, self)
+
+    def copy(self):
+        return self
+
+    def flatten(self):
+        return explode(self).flatten()
+
+    ravel = flatten
 
 
 def explode(a):
@@ -550,8 +581,13 @@ class NP:
         return OArr('cross', (whole(a), whole(b)), ('v', 3))
 
     def sum(self, a, axis=None):
+        a0 = explode(_arr(a))
         if axis is not None:
-            raise TracerError('sum axis')
+            if not a0.is2d() or axis not in (0, 1, -1):
+                raise TracerError('sum axis')
+            if axis == 0:
+                return Arr([_sum([r[j] for r in a0.d]) for j in range(len(a0.d[0]))])
+            return Arr([_sum(list(r)) for r in a0.d])
         a = explode(_arr(a))
         if a.is2d():
             return _sum([x for r in a.d for x in r])
@@ -594,6 +630,117 @@ class NP:
     def clip(self, a, lo, hi):
         a = explode(_arr(a))
         return a._map(lambda x: smin(smax(x, Sym.lift(lo)), Sym.lift(hi)))
+
+    # ---- spellings a refactor may switch to; all lowered to the primitives above (no new node kinds)
+    def _el1(self, x, f):
+        if isinstance(x, (Arr, OArr, list, tuple)):
+            return explode(_arr(x))._map(f)
+        return f(Sym.lift(x))
+
+    def deg2rad(self, x):
+        return self._el1(x, lambda e: e * NP.pi / Sym.lift(180))
+
+    radians = deg2rad
+
+    def rad2deg(self, x):
+        return self._el1(x, lambda e: e * Sym.lift(180) / NP.pi)
+
+    degrees = rad2deg
+
+    def square(self, x):
+        return self._el1(x, lambda e: e * e)
+
+    def power(self, x, k):
+        return self._el1(x, lambda e: e ** k)
+
+    def tan(self, x):
+        return self._el1(x, lambda e: Sym('sin', e) / Sym('cos', e))
+
+    def fabs(self, x):
+        return self.abs(x)
+
+    absolute = abs
+
+    def hypot(self, a, b):
+        a, b = Sym.lift(a), Sym.lift(b)
+        return Sym('sqrt', a * a + b * b)
+
+    def maximum(self, a, b):
+        return smax(a, b)
+
+    def minimum(self, a, b):
+        return smin(a, b)
+
+    def matmul(self, a, b):
+        return self.dot(a, b)
+
+    def inner(self, a, b):
+        return self.dot(a, b)
+
+    def vdot(self, a, b):
+        return self.dot(a, b)
+
+    def outer(self, a, b):
+        a, b = explode(_arr(a)), explode(_arr(b))
+        if a.is2d() or b.is2d():
+            raise TracerError('outer of matrices')
+        return Arr([[x * y for y in b.d] for x in a.d])
+
+    def trace(self, a):
+        a = explode(_arr(a))
+        if not a.is2d() or len(a.d) != len(a.d[0]):
+            raise TracerError('trace of non-square array')
+        return _sum([a.d[i][i] for i in range(len(a.d))])
+
+    def diag(self, v):
+        v = explode(_arr(v))
+        if v.is2d():
+            return Arr([v.d[i][i] for i in range(min(len(v.d), len(v.d[0])))])
+        k = len(v.d)
+        return Arr([[v.d[i] if i == j else Sym('int', 0) for j in range(k)] for i in range(k)])
+
+    def identity(self, k):
+        return self.eye(k)
+
+    def ones(self, sh):
+        z = self.zeros(sh)
+        return z._map(lambda e: Sym('int', 1))
+
+    def full(self, sh, v):
+        z = self.zeros(sh)
+        v = Sym.lift(v)
+        return z._map(lambda e: v)
+
+    def zeros_like(self, a):
+        return explode(_arr(a))._map(lambda e: Sym('int', 0))
+
+    def copy(self, a):
+        a = _arr(a)
+        return a.copy()
+
+    def ravel(self, a):
+        return explode(_arr(a)).flatten()
+
+    def stack(self, rows, axis=0):
+        if axis != 0:
+            raise TracerError('stack axis')
+        return _arr([explode(_arr(r)).tolist() for r in rows])
+
+    vstack = stack
+
+    def column_stack(self, cols):
+        return self.transpose(self.stack(cols))
+
+    def float64(self, x):
+        return Sym.lift(x)
+
+    def isscalar(self, x):
+        return isinstance(x, (Sym, int, float))
+
+    def where(self, c, a, b):
+        if isinstance(c, (Arr, OArr)):
+            raise TracerError('where on an array condition')
+        return a if bool(c) else b
 
 
 def _sum(xs):
@@ -778,6 +925,21 @@ class Tracer:
         shim = NP()
         for a in alias:
             self.ns[a] = shim
+        # the standard-library spellings of the same primitives
+        class _Math:
+            pi = NP.pi
+            sin = staticmethod(lambda x: shim.sin(x)); cos = staticmethod(lambda x: shim.cos(x)); tan = staticmethod(lambda x: shim.tan(x))
+            sqrt = staticmethod(lambda x: shim.sqrt(x)); exp = staticmethod(lambda x: shim.exp(x))
+            acos = staticmethod(lambda x: shim.arccos(x)); asin = staticmethod(lambda x: shim.arcsin(x)); atan = staticmethod(lambda x: shim.arctan(x))
+            atan2 = staticmethod(lambda y, x: shim.arctan2(y, x)); hypot = staticmethod(lambda a, b: shim.hypot(a, b))
+            fabs = staticmethod(lambda x: shim.abs(x)); radians = staticmethod(lambda x: shim.deg2rad(x)); degrees = staticmethod(sdegrees)
+        self.ns['math'] = _Math
+        self.ns['radians'] = _Math.radians
+        self.ns.setdefault('tuple', tuple)
+        self.ns.setdefault('enumerate', enumerate)
+        self.ns.setdefault('sum', lambda xs: _sum(list(xs)))
+        self.ns.setdefault('isinstance', isinstance)
+        self.ns.setdefault('pow', pow)
         self.extern = {}
 
     def add_extern(self, pyname, traced):
